@@ -300,6 +300,9 @@ Proof. induction l as [|a l IH]; simpl; intros y; [reflexivity|]. rewrite IH. ap
 Lemma within_flush cfg x : within_limit cfg x -> within_limit cfg (flush x).
 Proof. unfold within_limit, flush. simpl. rewrite fold_emit_subs. auto. Qed.
 
+Lemma upd_sub_length s y l : length (upd_sub s y l) = length l.
+Proof. induction l as [|[s' x] l IH]; simpl; [reflexivity|]. destruct (str_eqb s s'); simpl; congruence. Qed.
+
 Lemma map_length_subs (f : pystr * sub -> pystr * sub) l : length (map f l) = length l.
 Proof. apply map_length. Qed.
 
@@ -329,7 +332,7 @@ Proof.
     destruct (sb_running sb) eqn:Er; [|discriminate].
     unfold row_step. rewrite Er.
     destruct (sb_rows sb) as [|batch rest]; intros E; inversion E; subst; unfold AllWithin; simpl;
-      apply AllWithin_set; try assumption; unfold within_limit; simpl; rewrite map_length.
+      apply AllWithin_set; try assumption; unfold within_limit; simpl; rewrite upd_sub_length.
     + rewrite emit_subs. apply (HA _ _ Ex).
     + assert (G : forall l y, c_subs (fold_left (fun y eid => emit (FrEvent sid eid) y) l y) = c_subs y).
       { induction l as [|a l IH]; simpl; intros y; [reflexivity|]. rewrite IH. apply emit_subs. }
